@@ -365,6 +365,31 @@ let milu_parse args =
         | PPanic -> raise Model_panic)
   | _ -> "BAD-ARGS"
 
+(* milu_rt <tokens joined by ','>: prefix encoding of a MiluRoundtrip.tree
+   A,<hex id>  N,<decimal>  B,<m>,<j>,l,r  U,<j>,t  X,a,i  F,a,<hex field>  K,<n>,f,args..  C,c,y,n *)
+let milu_rt args =
+  match args with
+  | [ enc ] ->
+      let toks = ref (String.split_on_char ',' enc) in
+      let next () = match !toks with t :: r -> toks := r; t | [] -> failwith "short" in
+      let rec nat_of_i i = if i <= 0 then O else S (nat_of_i (i - 1)) in
+      let nat_of s = nat_of_i (int_of_string s) in
+      let rec tr () =
+        match next () with
+        | "A" -> TAtom (unhex (next ()))
+        | "N" -> let d = next () in TInt (List.init (String.length d) (fun i -> n_of_int (Char.code d.[i])))
+        | "B" -> let m = nat_of (next ()) in let j = nat_of (next ()) in let l = tr () in let r = tr () in TBin (m, j, l, r)
+        | "U" -> let j = nat_of (next ()) in TUn (j, tr ())
+        | "X" -> let a = tr () in let i = tr () in TIndex (a, i)
+        | "F" -> let a = tr () in TAccess (a, unhex (next ()))
+        | "K" -> let n = int_of_string (next ()) in let f = tr () in
+                 let rec go k = if k = 0 then [] else let x = tr () in x :: go (k - 1) in TCall (f, go n)
+        | "C" -> let c = tr () in let y = tr () in let n = tr () in TCond (c, y, n)
+        | _ -> failwith "tok" in
+      let t = tr () in
+      "OK " ^ hex (x_rt_print t) ^ " " ^ sexp (x_rt_denote t)
+  | _ -> "BAD-ARGS"
+
 (* ---- milu evaluator ------------------------------------------------------------------ *)
 
 exception Opaque
@@ -593,6 +618,7 @@ let run_line ovf line =
         | "dispatch" -> dispatch args
         | "reload_seq" -> reload_seq args
         | "milu_parse" -> milu_parse args
+        | "milu_rt" -> milu_rt args
         | "milu_eval" -> milu_eval args
         | "milu_wf" -> (match args with
             | [ h ] -> (match x_milu_parse (unhex h) with POk (e, _) -> if x_wf_lfb e then "WF" else "NOT-WF" | _ -> "SYNTAX")
